@@ -223,6 +223,20 @@ def main(argv):
                 mres = dict(error=str(e))
             thorough[u] = dict(ensures_false_canary=dict(functions=len(fids), verified_false=vac2), contract_mutation=mres)
 
+    # bounded stand-ins (labelled bounded, never counted as proved): differential
+    # tests of real functions that are NOT under contract, with a stated bound
+    bounded_results = []
+    if not update:
+        for b in checks[prop].get("bounded", []):
+            cmd = b["thorough_cmd"] if (tier == "thorough" and b.get("thorough_cmd")) else b["cmd"]
+            try:
+                pr = subprocess.run(cmd, shell=True, cwd=VERIF, capture_output=True, text=True, timeout=b.get("timeout", 1800))
+                ent = dict(name=b["name"], cmd=cmd, bound=b["bound"], stands_in_for=b["stands_in_for"], rc=pr.returncode,
+                           output=pr.stdout.strip()[-3000:], stderr=pr.stderr[-500:])
+            except Exception as e:
+                ent = dict(name=b["name"], cmd=cmd, bound=b["bound"], stands_in_for=b["stands_in_for"], rc=2, output="", stderr=str(e))
+            bounded_results.append(ent)
+
     undecided = []
     all_obl = []
     witness_violations = []
@@ -324,6 +338,17 @@ def main(argv):
                            witness=w), fh, indent=1)
         out_lines.append("VIOLATION property=%s replay=%s obligation=witness:%s (contracts not re-established: %s)" % (prop, rpath, u, (reason or "")[:160].replace("\n", " ")))
         rc = 1
+    for ent in bounded_results:
+        if ent["rc"] == 1:
+            rpath = os.path.join(VERIF, "replay_out", "%s_bounded_%s.json" % (prop, ent["name"]))
+            with open(rpath, "w") as fh:
+                json.dump(dict(property=prop, obligation="bounded:%s" % ent["name"], bound=ent["bound"],
+                               note="bounded differential check of real functions that are not under contract (%s) found a failing input" % ent["stands_in_for"],
+                               witness=dict(found=True, cmd=ent["cmd"], failing_input=ent["output"])), fh, indent=1)
+            out_lines.append("VIOLATION property=%s replay=%s obligation=bounded:%s" % (prop, rpath, ent["name"]))
+            rc = 1
+        elif ent["rc"] != 0:
+            undecided.append("bounded check %s could not run: %s %s" % (ent["name"], ent["output"][-200:], ent["stderr"][-200:]))
     if rc == 0 and undecided:
         rc = 2
         for u in undecided:
@@ -366,12 +391,14 @@ def main(argv):
             canary="every function under contract re-verified with an added `ensures false`: each must fail; vacuous=%s" % vacuous,
             thorough=thorough,
             explanation=cfgp.get("explanation", ""),
-            bounded_checks=cfgp.get("bounded_checks", []),
+            bounded_checks=[dict(name=e["name"], bound=e["bound"], stands_in_for=e["stands_in_for"], cmd=e["cmd"],
+                                 outcome=("no failing input within the bound" if e["rc"] == 0 else ("FAILING INPUT FOUND" if e["rc"] == 1 else "could not run")),
+                                 note="bounded stand-in: not counted in obligations/discharged") for e in bounded_results],
             observations=cfgp.get("observations", []),
         ),
         assumptions=cfgp.get("assumptions", []) + ["every entry of coverage.trusted_base is an assumed contract"],
         wall_s=round(time.time() - t0, 2),
-        violations=len(violations) + len(witness_violations),
+        violations=len(violations) + len(witness_violations) + len([e for e in bounded_results if e["rc"] == 1]),
     )
     evdir = os.path.join(VERIF, "evidence")
     if os.environ.get("SOSV_REPO", "/repo") != "/repo":
